@@ -9,7 +9,7 @@ import subprocess
 import sys
 
 VERIF = os.path.dirname(os.path.dirname(os.path.abspath(__file__)))
-REPO = os.environ.get('RKCOMMON_REPO', '/repo')
+REPO = os.environ.get('RKCOMMON_REPO') or '/repo'  # an empty value means the default
 GUARD = 'RKCOMMON_VERIF'
 
 
